@@ -153,3 +153,280 @@ theorem sync_erase_both (c : Lru) (k : Key) (hs : Sync c) :
 
 end Lru
 end LruM
+
+namespace LruM
+namespace Lru
+
+/-! ### every public operation keeps index and directory in agreement -/
+
+theorem sync_of_parts (c' : Lru) (E F : List (Key × Nat)) (k : Key) (n : Nat) (p : E.Perm F) (hn : KeysNodup E)
+    (he : c'.entries = eraseKey E k ++ [(k, n)]) (hf : c'.files = eraseKey F k ++ [(k, n)]) : Sync c' :=
+  ⟨by rw [he, hf]; exact List.Perm.append_right _ (eraseKey_perm p k),
+   by rw [he]; exact keysNodup_snoc _ k n (keysNodup_eraseKey _ k hn) (not_mem_keys_eraseKey _ k)⟩
+
+theorem prepareAdd_sync (c : Lru) (k : Key) (n : Nat) (hs : Sync c) : Sync (c.prepareAdd k n).1 := by
+  unfold prepareAdd
+  rcases hr : c.makeSpace n with ⟨c', r⟩
+  have h := (makeSpace_sync c c' n r hr hs).1
+  cases r <;> simp only <;> first | exact sync_frame _ _ h rfl rfl | exact h
+
+theorem insertBytes_sync (c : Lru) (k : Key) (n : Nat) (hA : Acct c) (hnp : c.poisoned = false) (hs : Sync c) :
+    Sync (c.insertBytes k n).1 := by
+  unfold insertBytes
+  by_cases hn : n > c.cap
+  · simp only [hn, if_true]; exact hs
+  · simp only [hn, if_false]
+    -- the state after writing the file and dropping the stale index entry: in agreement up to the new file
+    have h0 : Sync { c with entries := eraseKey c.entries k, files := eraseKey c.files k } := sync_erase_both c k hs
+    have hx : SyncX [(k, n)] { c with files := eraseKey c.files k ++ [(k, n)], entries := eraseKey c.entries k } :=
+      ⟨List.Perm.append_right _ h0.perm, keysNodup_snoc _ k n h0.nodup (not_mem_keys_eraseKey _ k)⟩
+    unfold addFile
+    rcases hr : makeSpace { c with files := eraseKey c.files k ++ [(k, n)], entries := eraseKey c.entries k } n with ⟨c', r⟩
+    obtain ⟨hx', _⟩ := makeSpace_syncX [(k, n)] _ c' n r hr hx
+    obtain ⟨h1, h2, h3, h4, h5, hpo, h6, h8⟩ := makeSpace_spec _ c' n r hr
+    have hkn : k ∉ c'.entries.map (·.1) := by
+      have := hx'.nodup
+      unfold KeysNodup at this
+      rw [List.map_append, List.nodup_append] at this
+      intro hm
+      exact this.2.2 k hm k (by simp) rfl
+    rcases h8 with rfl | rfl
+    · simp only
+      have hfit : c'.lruSize + n ≤ c'.cap := by have := h6 rfl; omega
+      have he := lruInsert_entries c' k n hfit
+      refine ⟨?_, ?_⟩
+      · show (c'.lruInsert k n).entries.Perm c'.files
+        rw [he, eraseKey_of_not_mem _ k hkn]; exact hx'.perm
+      · show KeysNodup (c'.lruInsert k n).entries
+        rw [he, eraseKey_of_not_mem _ k hkn]; exact hx'.nodup
+    · simp only
+      refine ⟨?_, ?_⟩
+      · show c'.entries.Perm (eraseKey c'.files k)
+        have p := eraseKey_perm hx'.perm k
+        have e : eraseKey (c'.entries ++ [(k, n)]) k = c'.entries := by
+          show (c'.entries ++ [(k, n)]).filter (·.1 != k) = c'.entries
+          rw [List.filter_append]
+          have : ([(k, n)] : List (Key × Nat)).filter (·.1 != k) = [] := by simp
+          rw [this, List.append_nil]
+          exact eraseKey_of_not_mem _ k hkn
+        rw [e] at p; exact p
+      · show KeysNodup c'.entries
+        have := hx'.nodup
+        unfold KeysNodup at this ⊢
+        rw [List.map_append, List.nodup_append] at this
+        exact this.1
+
+theorem commit_sync (c : Lru) (h : Nat) (hA : Acct c) (hnp : c.poisoned = false) (hs : Sync c) : Sync (c.commit h).1 := by
+  unfold commit
+  cases hf : c.temps.find? (·.handle == h) with
+  | none => simp only; exact hs
+  | some p =>
+    simp only
+    have hfree := reservedSum_filter_find c.temps h p hf
+    rcases hr : makeSpace { c with temps := c.temps.filter (·.handle != h) } (p.written - p.reserved) with ⟨c1, r⟩
+    have hs0 : Sync { c with temps := c.temps.filter (·.handle != h) } := sync_frame _ _ hs rfl rfl
+    have hs1 := (makeSpace_sync _ c1 _ r hr hs0).1
+    obtain ⟨h1, h2, h3, h4, h5, hpo, h6, h8⟩ := makeSpace_spec _ c1 _ r hr
+    simp only at h1 h2 h3 hpo
+    rcases h8 with rfl | rfl
+    · simp only
+      have hsz := h6 rfl
+      have hA0 := hA hnp
+      have hres : p.reserved ≤ c.pendingSize := by
+        have := hA0.2; simp only [reservedSum] at this; omega
+      have hfit : c1.lruSize + p.written ≤ c1.cap := by omega
+      have he : ((commitCore c1 p).lruInsert p.key p.written).entries = eraseKey c1.entries p.key ++ [(p.key, p.written)] :=
+        lruInsert_entries (commitCore c1 p) p.key p.written hfit
+      exact sync_of_parts _ c1.entries c1.files p.key p.written hs1.perm hs1.nodup he rfl
+    · simp only; exact hs1
+
+theorem get_sync (c : Lru) (k : Key) (hs : Sync c) : Sync (c.get k).1 := by
+  unfold get
+  split
+  · exact hs
+  · rename_i e he
+    have hmem : e ∈ c.entries := List.mem_of_find?_eq_some he
+    have hk : e.1 = k := by have := List.find?_some he; simpa using this
+    have hperm : (eraseKey c.entries k ++ [e]).Perm c.entries := by
+      -- moving the unique entry of key k to the back is a permutation
+      have : ∀ (l : List (Key × Nat)), KeysNodup l → e ∈ l → (eraseKey l k ++ [e]).Perm l := by
+        intro l
+        induction l with
+        | nil => intro _ hm; cases hm
+        | cons x xs ih =>
+          intro hnd hm
+          have hndx : KeysNodup xs := by unfold KeysNodup at hnd ⊢; simp only [List.map_cons, List.nodup_cons] at hnd; exact hnd.2
+          have hxk : x.1 ∉ xs.map (·.1) := by unfold KeysNodup at hnd; simp only [List.map_cons, List.nodup_cons] at hnd; exact hnd.1
+          rcases List.mem_cons.mp hm with hx | hx
+          · subst hx
+            have hne : (e.1 != k) = false := by simp [hk]
+            have : eraseKey (e :: xs) k = xs := by
+              show (e :: xs).filter (·.1 != k) = xs
+              simp only [List.filter_cons, hne, Bool.false_eq_true, if_false]
+              exact eraseKey_of_not_mem xs k (hk ▸ hxk)
+            rw [this]; exact List.perm_append_singleton e xs
+          · have hxne : x.1 ≠ k := by
+              intro e'; apply hxk; exact List.mem_map.mpr ⟨e, hx, by rw [hk, e']⟩
+            have hne : (x.1 != k) = true := by simp [hxne]
+            have : eraseKey (x :: xs) k = x :: eraseKey xs k := by
+              show (x :: xs).filter (·.1 != k) = x :: xs.filter (·.1 != k)
+              simp only [List.filter_cons, hne, if_true]
+            rw [this, List.cons_append]
+            exact List.Perm.cons x (ih hndx hx)
+      exact this c.entries hs.nodup hmem
+    have hres : Sync { c with entries := eraseKey c.entries k ++ [e] } :=
+      ⟨hperm.trans hs.perm, keysNodup_perm hperm.symm hs.nodup⟩
+    split <;> exact hres
+
+theorem remove_sync (c : Lru) (k : Key) (hs : Sync c) : Sync (c.remove k).1 := by
+  unfold remove
+  split
+  · split
+    · exact sync_erase_both c k hs
+    · rename_i hcont hno
+      -- the key is indexed, so (agreement) its file exists: this branch is unreachable, but harmless
+      have : eraseKey c.files k = c.files := by
+        apply eraseKey_of_not_mem
+        intro hm
+        obtain ⟨x, hx, hxk⟩ := List.mem_map.mp hm
+        have : c.files.any (·.1 == k) = true := List.any_eq_true.mpr ⟨x, hx, by simp [hxk]⟩
+        exact hno this
+      have h := sync_erase_both c k hs
+      exact ⟨by simpa [this] using h.perm, h.nodup⟩
+  · exact hs
+
+/-- the start-up scan: files oldest first; every file ends up indexed or deleted -/
+theorem reopen_sync (c : Lru) (order : List (Key × Nat)) (hnd : KeysNodup order) : Sync (c.reopen order) := by
+  unfold reopen
+  -- invariant of the fold: index ++ not-yet-scanned files = directory; nothing is reserved
+  have key : ∀ (l : List (Key × Nat)) (acc : Lru), SyncX l acc → acc.pendingSize = 0 →
+      Sync (l.foldl (fun acc (kn : Key × Nat) => if kn.2 > acc.cap then { acc with files := eraseKey acc.files kn.1 } else (acc.addFile kn.1 kn.2).1) acc) := by
+    intro l
+    induction l with
+    | nil => intro acc h _; exact (sync_iff_syncX acc).mpr h
+    | cons kn l ih =>
+      intro acc h hp
+      obtain ⟨k, n⟩ := kn
+      simp only [List.foldl_cons]
+      have hkn : k ∉ (acc.entries ++ l).map (·.1) := by
+        have := h.nodup
+        unfold KeysNodup at this
+        rw [List.map_append, List.map_cons, List.nodup_append] at this
+        intro hm
+        rw [List.map_append] at hm
+        rcases List.mem_append.mp hm with hm | hm
+        · exact this.2.2 k hm k (by simp) rfl
+        · have h2 := this.2.1; simp only [List.nodup_cons] at h2; exact h2.1 hm
+      have hndl : KeysNodup (acc.entries ++ l) := by
+        have := h.nodup
+        unfold KeysNodup at this ⊢
+        rw [List.map_append, List.map_cons] at this
+        rw [List.map_append]
+        have hsub : List.Sublist (acc.entries.map (·.1) ++ l.map (·.1)) (acc.entries.map (·.1) ++ k :: l.map (·.1)) :=
+          List.Sublist.append_left (List.sublist_cons_self k _) _
+        exact List.Nodup.sublist hsub this
+      split
+      · -- too large for the cache: the file is deleted
+        refine ih { acc with files := eraseKey acc.files k } ?_ hp
+        refine ⟨?_, hndl⟩
+        show (acc.entries ++ l).Perm (eraseKey acc.files k)
+        have p := eraseKey_perm h.perm k
+        have e : eraseKey (acc.entries ++ (k, n) :: l) k = acc.entries ++ l := by
+          show (acc.entries ++ (k, n) :: l).filter (·.1 != k) = acc.entries ++ l
+          rw [List.filter_append, List.filter_cons]
+          simp only [bne_self_eq_false, Bool.false_eq_true, if_false]
+          rw [← List.filter_append]
+          exact eraseKey_of_not_mem (acc.entries ++ l) k hkn
+        rw [e] at p; exact p
+      · rename_i hfits
+        unfold addFile
+        rcases hr : makeSpace acc n with ⟨c', r⟩
+        obtain ⟨hx', m, hdrop⟩ := makeSpace_syncX ((k, n) :: l) acc c' n r hr h
+        obtain ⟨h1, h2, h3, h4, h5, hpo, h6, h8⟩ := makeSpace_spec acc c' n r hr
+        have hkn' : k ∉ (c'.entries ++ l).map (·.1) := by
+          have := hx'.nodup
+          unfold KeysNodup at this
+          rw [List.map_append, List.map_cons, List.nodup_append] at this
+          intro hm
+          rw [List.map_append] at hm
+          rcases List.mem_append.mp hm with hm | hm
+          · exact this.2.2 k hm k (by simp) rfl
+          · have h2' := this.2.1; simp only [List.nodup_cons] at h2'; exact h2'.1 hm
+        rcases h8 with rfl | rfl
+        · simp only
+          have hfit : c'.lruSize + n ≤ c'.cap := by have := h6 rfl; omega
+          have he := lruInsert_entries c' k n hfit
+          have hk1 : k ∉ c'.entries.map (·.1) := fun hm => hkn' (by rw [List.map_append]; exact List.mem_append_left _ hm)
+          apply ih
+          · refine ⟨?_, ?_⟩
+            · show ((c'.lruInsert k n).entries ++ l).Perm c'.files
+              rw [he, eraseKey_of_not_mem _ k hk1, List.append_assoc]; exact hx'.perm
+            · show KeysNodup ((c'.lruInsert k n).entries ++ l)
+              rw [he, eraseKey_of_not_mem _ k hk1, List.append_assoc]; exact hx'.nodup
+          · show c'.pendingSize = 0
+            rw [h1]; exact hp
+        · -- `make_space` cannot refuse here: nothing is reserved and the file fits the capacity
+          exfalso
+          unfold makeSpace at hr
+          simp only [hfits, if_false] at hr
+          obtain ⟨he0, hgt, hpe⟩ := makeSpaceFuel_tooLarge _ acc c' n hr (Nat.lt_succ_self _)
+          have : c'.size = 0 := by simp [size, lruSize, he0, hpe, hp]
+          omega
+  apply key
+  · exact ⟨by simp, by simpa using hnd⟩
+  · rfl
+
+/-- operations of the cache itself and of its callers — everything except deletion of files by someone else -/
+def NoExt : LOp → Prop
+  | .externalDelete _ => False
+  | _ => True
+
+/-- the `order` handed to a reopen is what is on disk: the entry files, each once -/
+def ReopenFaithful (c : Lru) : LOp → Prop
+  | .reopen order => order.Perm c.files
+  | _ => True
+
+structure Good (c : Lru) : Prop where
+  np : c.poisoned = false
+  acct : Acct c
+  sync : Sync c
+
+theorem good_step (c : Lru) (g : Good c) (o : LOp) (hne : NoExt o) (hro : ReopenFaithful c o) : Good (lstep c o) := by
+  have hnp' := (lstep_np c o g.np).1
+  cases o with
+  | insertBytes k n => exact ⟨hnp', insertBytes_acct c k n g.acct, insertBytes_sync c k n g.acct g.np g.sync⟩
+  | prepareAdd k n => exact ⟨hnp', prepareAdd_acct c k n g.acct, prepareAdd_sync c k n g.sync⟩
+  | write h m => exact ⟨hnp', write_acct c h m g.acct, sync_frame _ _ g.sync rfl rfl⟩
+  | commit h => exact ⟨hnp', commit_acct c h g.acct, commit_sync c h g.acct g.np g.sync⟩
+  | dropEntry h => exact ⟨hnp', dropEntry_acct c h g.acct, sync_frame _ _ g.sync rfl rfl⟩
+  | get k => exact ⟨hnp', get_acct c k g.acct, get_sync c k g.sync⟩
+  | remove k => exact ⟨hnp', remove_acct c k g.acct, remove_sync c k g.sync⟩
+  | externalDelete k => exact absurd hne (by simp [NoExt])
+  | reopen order =>
+    refine ⟨hnp', reopen_acct c order, reopen_sync c order ?_⟩
+    have p : order.Perm c.files := hro
+    exact keysNodup_perm (g.sync.perm.trans p.symm) g.sync.nodup
+
+/-- a history together with the side conditions at each step -/
+def GoodHistory : Lru → List LOp → Prop
+  | _, [] => True
+  | c, o :: os => NoExt o ∧ ReopenFaithful c o ∧ GoodHistory (lstep c o) os
+
+/-- C07 `index_eq_disk`: after **every** sequence of public operations (no file deleted by someone else; reopen sees
+    the directory as it is) every indexed entry exists on disk with exactly the recorded size, no other entry file
+    exists, and no key is indexed twice -/
+theorem index_eq_disk (cap : Nat) (ops : List LOp) (h : GoodHistory { cap := cap } ops) :
+    let c := ops.foldl lstep { cap := cap }
+    c.entries.Perm c.files ∧ KeysNodup c.entries := by
+  have : ∀ (ops : List LOp) (c : Lru), Good c → GoodHistory c ops → Good (ops.foldl lstep c) := by
+    intro ops
+    induction ops with
+    | nil => intro c g _; exact g
+    | cons o os ih => intro c g hh; exact ih _ (good_step c g o hh.1 hh.2.1) hh.2.2
+  have g0 : Good ({ cap := cap } : Lru) :=
+    ⟨rfl, by intro _; simp [lruSize, reservedSum], ⟨List.Perm.refl _, by simp [KeysNodup]⟩⟩
+  have g := this ops _ g0 h
+  exact ⟨g.sync.perm, g.sync.nodup⟩
+
+end Lru
+end LruM
